@@ -2,5 +2,5 @@ SPECIFICATION SpecIpf
 VIEW View
 ACTION_CONSTRAINT EmitIpf
 INVARIANTS TypeOK
-PROPERTIES CallLaws OnlyCallCalls CopyEquivalent SwapExchanges Independence
+PROPERTIES CallLaws OnlyCallCalls CopyEquivalent SwapExchanges Independence SmallCopyEquivalent
 CHECK_DEADLOCK FALSE
